@@ -349,7 +349,8 @@ def main():
             report(*hit)
 
     # ---- 2. random histories
-    specs = gen.histories(chk.seed, chk.tier, avoid_clear_grown=open_memclr, avoid_indirect=open_indirect, avoid_nan_churn=open_nan)
+    specs = gen.histories(chk.seed, chk.tier, avoid_clear_grown=open_memclr, avoid_indirect=open_indirect, avoid_nan_churn=open_nan,
+                          n=(int(os.environ["C06_DEV_N"]) if os.environ.get("C06_DEV_N") else None))  # DEV-ONLY
     bsz = 10 if thorough else 6
     jobs = []
     for i in range(0, len(specs), bsz):
